@@ -61,8 +61,18 @@ Definition consistent (l : list aspec) : bool :=
 (* `pos_of x l` (Model/MapSpecSpec.v) is the position of the first occurrence of x in l *)
 
 (* the key that fixes dimension number q of a rank-r array to n and keeps every other dimension *)
-Definition slice_key (r q n : nat) : list kitem :=
-  map (fun i => if i =? q then KInt n else KAll) (seq 0 r).
+Fixpoint slice_key (r q n : nat) : list kitem :=
+  match r with
+  | O => []
+  | S r' => match q with
+            | O => KInt n :: repeat KAll r'
+            | S q' => KAll :: slice_key r' q' n
+            end
+  end.
+
+(* an index of the sliced array, completed by n at dimension q; the shape without dimension q *)
+Definition insert_at {A} (q : nat) (x : A) (l : list A) : list A := firstn q l ++ x :: skipn q l.
+Definition remove_at {A} (q : nat) (l : list A) : list A := firstn q l ++ skipn (S q) l.
 
 (* label based selection on a one-dimensional coordinate with values `labels` along dimension q of a:
    look the label up, take the slice at the position found (KeyError for an unknown label) *)
